@@ -65,3 +65,71 @@ Fixpoint commit_noquorum_from (rv : raftrev) (c : cluster) (evs : list event) : 
 
 Definition commit_noquorum_b (rv : raftrev) (size : N) (evs : list event) : bool :=
   commit_noquorum_from rv (init_default size) evs.
+
+(* ------------------------------------------------------------------ the ROOT-CAUSE marker of `commit-without-quorum`
+   `commit_noquorum_b` above is the observable consequence and also fires in harmless histories of a correct leader
+   (a follower that acknowledged and then moved on to a higher term is still counted, rightly).  The root cause is:
+   a Leader's commit step COUNTED A ROW OF ITS PEER TABLE THAT IS NOT AN ACKNOWLEDGEMENT OF ITS CURRENT TERM, i.e. a
+   row that was not written by `commit()` from an Ok answer to an Append/Heartbeat request of the leader's current term
+   since the node became Leader.  The model's state does not record who wrote a row, so this is reconstructed along
+   the run (ghost; `Raft.v` is untouched, the handlers never see it):
+
+     `fresh g i j` = node i has been Leader without interruption since row j of its table was last written, and that
+                     write was `commit()` handling an Ok answer to a request with `q_term = n_term` of the leader.
+
+   Every step that leaves node i in a state other than Leader, and the step that makes it Leader, clear `fresh g i _`
+   (the rows a new leader finds were written by `update_node` from the peers' own requests, by `commit()` in an
+   earlier term of office, or never); while a node is and stays Leader its rows of OTHER nodes are written by
+   `commit()` only (RaftLogAck.v).  The marker fires when a node that is and stays Leader raises its
+   commit index and some row j <> self with `log_index >= new commit index` — a row `commit()` counted — is not fresh. *)
+Definition ackg := N -> N -> bool.
+Definition ackg0 : ackg := fun _ _ => false.
+Definition ackg_clear (g : ackg) (i : N) : ackg := fun i' j => if i' =? i then false else g i' j.
+Definition ackg_set (g : ackg) (i j : N) (v : bool) : ackg :=
+  fun i' j' => if (i' =? i) && (j' =? j) then v else g i' j'.
+
+(* the node that acts in a step, and the Append/Heartbeat request whose Ok answer it handles (if that is the step) *)
+Definition acting (c : cluster) (ev : event) : option (N * option request) :=
+  match ev with
+  | Tick i _ _ => Some (i, None)
+  | ClientAppend i _ => Some (i, None)
+  | Deliver k _ =>
+      match nth_error (c_net c) k with
+      | Some (MReq r) => Some (q_to r, None)
+      | Some (MResp r s) => Some (s_to s, if is_append_or_hb (q_kind r) && is_ok (s_result s) then Some r else None)
+      | None => None
+      end
+  | _ => None
+  end.
+
+(* rows other than its own that the leader `nd'` counts for the commit index it has just reached, and that are not fresh *)
+Definition stale_counted (g : ackg) (i : N) (nd' : node) : bool :=
+  existsb (fun j => negb (j =? n_index nd') && (n_commit nd' <=? p_li (node_at nd' j)) && negb (g i j)) (indices nd').
+
+(* one step: the ghost after it, and whether the marker fires in it *)
+Definition ackg_step (rv : raftrev) (c : cluster) (g : ackg) (ev : event) : ackg * bool :=
+  match acting c ev with
+  | Some (i, ack) =>
+      match get_node c i, get_node (step rv c ev) i with
+      | Some nd, Some nd' =>
+          if is_leader (n_state nd) && is_leader (n_state nd') then
+            let g' := match ack with
+                      | Some r => if ack_counts rv nd r then ackg_set g i (q_to r) (q_term r =? n_term nd) else g
+                      | None => g
+                      end in
+            (g', (n_commit nd <? n_commit nd') && stale_counted g' i nd')
+          else (ackg_clear g i, false)
+      | _, _ => (g, false)
+      end
+  | None => (g, false)
+  end.
+
+Fixpoint stale_ack_from (rv : raftrev) (c : cluster) (g : ackg) (evs : list event) : bool :=
+  match evs with
+  | [] => false
+  | e :: rest => let '(g', b) := ackg_step rv c g e in b || stale_ack_from rv (step rv c e) g' rest
+  end.
+
+(* root-cause marker of the class `commit-without-quorum` of an event list *)
+Definition stale_ack_counted_b (rv : raftrev) (size : N) (evs : list event) : bool :=
+  stale_ack_from rv (init_default size) ackg0 evs.
